@@ -6,7 +6,12 @@ OBLIGATIONS = [
 OBLIGATIONS.append(dict(id='C07.sum', engine='V', verus_fn='get_buffer_sum', verus_file='sum', label='C07.sum', complete=True, bound=None, units=[], harness='verus:get_buffer_sum', tier='quick',
     desc='real get_buffer_sum (extracted verbatim), for any number of buffered rows: the result is the mathematical sum over the rows of the number the key column denotes (0 when absent or not a number); no overflow given that the sum fits usize'))
 OBLIGATIONS.append(ob('C07.aggregate.inner', 'verif_frag::evalshim::c07_aggregate_dispatch', 'get_function_value (verbatim body on a shim world), aggregate branch: the inner expression is evaluated for the entry and the aggregate reads the buffer column named by the inner expression text', units=['evalshim'], complete=False, bound='1 concrete aggregate expression'))
-CANARIES = []
+V_ = 'verif_frag::variance::'
+OBLIGATIONS.append(ob('C07.variance.pop', V_ + 'c07_var_pop', 'get_variance / get_mean / get_buffer_sum (whole bodies verbatim on a shim row world): population variance of 2,4,4,4,5,5,7,9 is 4', units=['variance'], complete=False, bound='1 concrete column of 8 rows'))
+OBLIGATIONS.append(ob('C07.variance.fracmean', V_ + 'c07_var_fracmean', 'same bodies: columns whose mean is not an integer (1,2 and 1,2,4): population and sample variance equal the textbook values (deviations from the real mean)', units=['variance'], complete=False, bound='2 concrete columns'))
+OBLIGATIONS.append(ob('C07.variance.large', V_ + 'c07_var_large', 'same bodies: large values with a small spread (4e9+1..4e9+3): variance 2/3 (population), 1 (sample) - no cancellation', units=['variance'], complete=False, bound='1 concrete column'))
+OBLIGATIONS.append(ob('C07.variance.divisor', V_ + 'c07_var_divisor', 'the divisor the four VAR_ / STDDEV_ arms of get_aggregate_value hand to get_variance: the number of rows for _POP, rows - 1 for _SAMP (1 for a single row), for every row count', units=['variance']))
+CANARIES = [dict(harness=V_ + 'canary_variance_must_fail', units=['variance'])]
 ASSUMPTIONS = ['bounded operand domain for the AVG division (see obligation)']
-NOT_COVERED = ['MIN/MAX/COUNT arms', 'VAR_* / STDDEV_*: get_variance uses f64::powi, which CBMC does not model (a verbatim-body harness on concrete rows failed spuriously and passed natively; removed)', 'that the SUM of the property is an i64 sum of the column: get_buffer_sum parses usize, so negative values are skipped', 'the buffering of rows', 'WHERE-before-aggregate']
+NOT_COVERED = ['MIN/MAX/COUNT arms', 'VAR_* / STDDEV_* beyond the witness columns; the square root of STDDEV_*; rendering of the result', 'that the SUM of the property is an i64 sum of the column: get_buffer_sum parses usize, so negative values are skipped', 'the buffering of rows', 'WHERE-before-aggregate']
 HARNESS_TIMEOUT = 240
